@@ -2,6 +2,8 @@ import ShellOp.Proofs.WorkerC03
 import ShellOp.Generated.Facts
 import ShellOp.Model.SetLock
 import ShellOp.Proofs.Routing
+import ShellOp.Proofs.LockOrder
+import ShellOp.Proofs.WaitHead
 /-!
 # C03 — a queue runs one task at a time, head first; queues do not block each other
 
@@ -476,5 +478,90 @@ theorem tick_fills_the_configured_queues (v0 : Bool) (bs : List Routing.SchedBin
   rw [this, List.filter_map, List.length_map]
   rfl
 
+/-! ## Fourth wave: lock order of the queue package; the head on the retry path -/
+
+/-- **C03.4, lock nesting (fact, tie T1).** On the paths of the queue worker (`Start`, `waitForTask`), of
+the events consumer (`ManagerEventsHandler.Start`: `DoWithLock { AddLast }`), of `AddLast` and of
+`CancelTaskDelay`, following the calls into the methods of `TaskQueue` and `TaskQueueSet`, exactly one lock
+is ever taken while another is held: a queue's lock under the set's lock (the consumer). `waitMu` is
+never held together with anything. Read from the sources on every run. -/
+theorem lock_nesting_of_the_code : Facts.c03_lockNesting = [("TaskQueueSet.m", "TaskQueue.m")] := by decide
+
+/-- Every nesting the code has goes up in the rank set < queue < waitMu. -/
+theorem code_takes_locks_in_rank_order : Facts.c03_lockNesting.all LockOrder.nestingRanked = true := by decide
+
+/-- **C03.4, queues do not block each other through their locks.** Any number of goroutines (workers of any
+number of queues, the consumer, handlers looking queues up, `CancelTaskDelay` callers) and any number of
+locks: when every goroutine takes locks in increasing rank — which is what the nesting table of the code
+says — and some goroutine waits for a lock, there is a goroutine that holds a lock and does not wait: it
+finishes its critical section. The worker, the consumer and the other queues are never all waiting for
+each other, whatever the arrival times of events and the moments of the periodic head checks. -/
+theorem queue_locks_never_deadlock (ts : List LockOrder.Thread) (hord : ∀ t ∈ ts, LockOrder.Ordered t)
+    (t : LockOrder.Thread) (ht : t ∈ ts) (hb : LockOrder.Blocked ts t) :
+    ∃ u ∈ ts, u.held ≠ [] ∧ ¬ LockOrder.Blocked ts u :=
+  LockOrder.ordered_never_all_blocked ts hord t ht hb
+
+/-- Non-vacuity: the consumer holds the set's lock and a queue's lock, that queue's worker wants the
+queue's lock for its head check: it waits, the consumer does not. -/
+example : ∃ ts : List LockOrder.Thread, (∀ t ∈ ts, LockOrder.Ordered t) ∧
+    (∃ t ∈ ts, LockOrder.Blocked ts t) ∧ ∃ u ∈ ts, u.held ≠ [] ∧ ¬ LockOrder.Blocked ts u := by
+  refine ⟨[{ held := [0, 1], next := none }, { held := [], next := some 1 }], ?_, ?_, ?_⟩
+  · intro t ht l hn h hh
+    simp at ht
+    rcases ht with rfl | rfl
+    · simp at hn
+    · simp at hh
+  · exact ⟨{ held := [], next := some 1 }, by simp, 1, rfl, { held := [0, 1], next := none }, by simp, by simp⟩
+  · refine ⟨{ held := [0, 1], next := none }, by simp, by simp, ?_⟩
+    rintro ⟨l, hn, _⟩
+    simp at hn
+
+/-- Witness (the excluded variant): the head check done while `waitMu` is held (waitMu → queue lock)
+together with an `AddLast` that wakes the worker under the queue's lock (queue lock → waitMu): the worker
+of an idle queue and the consumer wait for each other, and the consumer holds the set's lock — no queue
+receives a task any more. Both goroutines are blocked; nobody who holds a lock can move. -/
+theorem waitmu_around_the_head_check_deadlocks :
+    let worker : LockOrder.Thread := { held := [2], next := some 1 }
+    let consumer : LockOrder.Thread := { held := [0, 1], next := some 2 }
+    LockOrder.Blocked [worker, consumer] worker ∧ LockOrder.Blocked [worker, consumer] consumer := by
+  refine ⟨⟨1, rfl, { held := [0, 1], next := some 2 }, by simp, by simp⟩,
+          ⟨2, rfl, { held := [2], next := some 1 }, by simp, by simp⟩⟩
+
+/-- **C03.2, head first after a back-off.** `waitForTask` as a function of what the queue holds at each of
+its looks (anybody may change the queue between two looks): the task it returns is the head of what the
+queue held at its LAST look — the `GetFirst()` of the shortcut when no delay was asked for, else the
+`GetFirst()` of the first head check after the delay at which the queue was not empty. -/
+theorem wait_returns_the_head_of_the_last_look (sleep : Nat) (first : WaitHead.Look) (looks : List WaitHead.Look)
+    (r : Option Queue.Id) (h : WaitHead.waitForTask sleep first looks = some r) :
+    (sleep = 0 ∧ first.atEmpty.isEmpty = false ∧ r = Queue.getFirst first.atGet) ∨
+    ∃ pre k post, looks = pre ++ k :: post ∧ k.expired = true ∧ k.atEmpty.isEmpty = false ∧
+      r = Queue.getFirst k.atGet ∧ WaitHead.waitLoop pre = none := by
+  unfold WaitHead.waitForTask at h
+  by_cases hc : (!first.atEmpty.isEmpty && sleep == 0) = true
+  · rw [if_pos hc] at h
+    left
+    simp only [Bool.and_eq_true, Bool.not_eq_true', beq_iff_eq] at hc
+    injection h with h
+    exact ⟨hc.2, hc.1, h.symm⟩
+  · rw [if_neg hc] at h
+    exact Or.inr (WaitHead.waitLoop_some looks r h)
+
+/-- After a failure (or a repeat, or a requested delay: `sleepDelay ≠ 0`) what the queue held BEFORE the
+back-off plays no part in what is executed next. -/
+theorem backoff_ignores_what_the_queue_held_before (sleep : Nat) (hs : sleep ≠ 0) (f1 f2 : WaitHead.Look)
+    (looks : List WaitHead.Look) :
+    WaitHead.waitForTask sleep f1 looks = WaitHead.waitForTask sleep f2 looks := by
+  have : (sleep == 0) = false := by simp [hs]
+  simp [WaitHead.waitForTask, this]
+
+/-- Non-vacuity + witness: task 1 fails, is removed during the back-off, task 2 is the head when the delay
+is over: the code returns 2; the variant that reads the head once before the delay returns 1, a task that
+is not in the queue any more. -/
+example :
+    WaitHead.waitForTask 5 ⟨true, [some 1, some 2], [some 1, some 2]⟩
+      [⟨false, [some 1, some 2], [some 1, some 2]⟩, ⟨true, [some 2], [some 2]⟩] = some (some 2) ∧
+    WaitHead.staleWait 5 ⟨true, [some 1, some 2], [some 1, some 2]⟩
+      [⟨false, [some 1, some 2], [some 1, some 2]⟩, ⟨true, [some 2], [some 2]⟩] = some (some 1) := by
+  decide
 
 end ShellOp.Worker.C03
